@@ -22,7 +22,7 @@ ASSUMPTIONS = [
     "names never contain a character of the class separator and are never '', '.', '..' (not addressable by construction)",
     "characters whose upper/lower/casefold mappings disagree are not generated (the statement does not say which folding applies)",
     "every node carries the path attribute",
-    "Root/ChildResolverError.node must be the node at which the failing component was evaluated; messages are not compared",
+    "Root/ChildResolverError.node must be the node at which the failing component was evaluated and ChildResolverError.child that component; messages are not compared",
 ]
 SEPS = ["/", "|", "::", "\\", "-", " "]
 ALPHABET = "abAB01.+*?[]()|^$\\ '\"\néÉжЖ漢/:-"
@@ -62,7 +62,9 @@ def resolver(pathattr, ic, relax):
     key = (pathattr, ic, relax)
     if key not in _RESOLVERS:
         # keyword form, positional form, and a subclass that configures the public attributes after the base constructor ran
-        _RESOLVERS[key] = [Resolver(pathattr, ignorecase=ic, relax=relax), Resolver(pathattr, ic, relax), ConfiguredLater(pathattr, ic, relax)]
+        # ... and one that passes only what differs from the documented defaults (name, case-sensitive, strict)
+        sparse = {k: v for k, v, default in (("pathattr", pathattr, "name"), ("ignorecase", ic, False), ("relax", relax, False)) if v != default}
+        _RESOLVERS[key] = [Resolver(pathattr, ignorecase=ic, relax=relax), Resolver(pathattr, ic, relax), ConfiguredLater(pathattr, ic, relax), Resolver(**sparse)]
     trio = _RESOLVERS[key]
     trio.append(trio.pop(0))
     return trio[0]
@@ -93,6 +95,8 @@ def check_path(case, nodes, labels, start, path, acc):
             raise Violation("strict-error-class", "%s expected %s, got %s %s" % (ctx, exp[1], strict[0], labels.label(strict[1]) if strict[0] == "node" else strict[1]))
         if exp[1] in ("RootResolverError", "ChildResolverError") and strict[2].node is not exp[2]:
             raise Violation("error-node", "%s: %s.node should be node %s, is %s" % (ctx, exp[1], labels.label(exp[2]), labels.label(strict[2].node)))
+        if exp[1] == "ChildResolverError" and getattr(strict[2], "child", "<no attribute>") != exp[3]:
+            raise Violation("error-child", "%s: ChildResolverError.child should be the component %r that could not be resolved, is %r" % (ctx, exp[3], getattr(strict[2], "child", "<no attribute>")))
         if relaxed[0] == "crash" or relaxed[0] == "error":
             raise Violation("relaxed-raises", "%s: relax=True raised %s: %s" % (ctx, relaxed[1], relaxed[2]))
         if relaxed[1] is not None:
